@@ -12,6 +12,7 @@ import (
 	"fmt"
 	"sort"
 	"strings"
+	gosync "sync"
 	"testing"
 
 	corev1 "k8s.io/api/core/v1"
@@ -65,6 +66,8 @@ type fakeInformer struct {
 }
 
 func (i *fakeInformer) AddEventHandler(kcache.ResourceEventHandler) (kcache.ResourceEventHandlerRegistration, error) {
+	i.c.mu.Lock()
+	defer i.c.mu.Unlock()
 	i.c.nreg++
 	r := &registration{id: i.c.nreg, inf: i}
 	i.regs[r] = true
@@ -72,6 +75,8 @@ func (i *fakeInformer) AddEventHandler(kcache.ResourceEventHandler) (kcache.Reso
 }
 
 func (i *fakeInformer) RemoveEventHandler(h kcache.ResourceEventHandlerRegistration) error {
+	i.c.mu.Lock()
+	defer i.c.mu.Unlock()
 	if r, ok := h.(*registration); ok {
 		delete(i.regs, r)
 	}
@@ -82,6 +87,7 @@ func (i *fakeInformer) RemoveEventHandler(h kcache.ResourceEventHandlerRegistrat
 // handler registrations per kind and drops them when an informer is removed.
 type fakeCache struct {
 	cache.Cache
+	mu   gosync.Mutex // real informers are thread safe
 	infs map[schema.GroupVersionKind]*fakeInformer
 	nreg int
 }
@@ -91,6 +97,8 @@ func (c *fakeCache) GetInformer(_ context.Context, obj client.Object, _ ...cache
 	if err != nil {
 		return nil, err
 	}
+	c.mu.Lock()
+	defer c.mu.Unlock()
 	i, ok := c.infs[gvk]
 	if !ok {
 		i = &fakeInformer{gvk: gvk, regs: map[*registration]bool{}, c: c}
@@ -104,11 +112,15 @@ func (c *fakeCache) RemoveInformer(_ context.Context, obj client.Object) error {
 	if err != nil {
 		return err
 	}
+	c.mu.Lock()
+	defer c.mu.Unlock()
 	delete(c.infs, gvk)
 	return nil
 }
 
 func (c *fakeCache) liveRegs(gvk schema.GroupVersionKind) int {
+	c.mu.Lock()
+	defer c.mu.Unlock()
 	if i, ok := c.infs[gvk]; ok {
 		return len(i.regs)
 	}
@@ -121,6 +133,7 @@ type fakeController struct {
 	ctx       context.Context
 	cancelled bool
 	started   bool
+	mu        gosync.Mutex
 }
 
 func (f *fakeController) Watch(src source.TypedSource[reconcile.Request]) error {
@@ -128,9 +141,13 @@ func (f *fakeController) Watch(src source.TypedSource[reconcile.Request]) error 
 }
 
 func (f *fakeController) Start(ctx context.Context) error {
+	f.mu.Lock()
 	f.started = true
+	f.mu.Unlock()
 	<-ctx.Done()
+	f.mu.Lock()
 	f.cancelled = true
+	f.mu.Unlock()
 	return nil
 }
 
@@ -526,7 +543,10 @@ func body(r *explore.Run, rep *report.R, sc scenario) {
 		}
 	}
 	for _, fc := range w.ctrls {
-		if fc.started && !fc.cancelled {
+		fc.mu.Lock()
+		bad := fc.started && !fc.cancelled
+		fc.mu.Unlock()
+		if bad {
 			r.Failf("stop/not-cancelled/"+opClass(w.hist), "controller %s was stopped but its context is not cancelled", fc.name)
 		}
 	}
